@@ -159,15 +159,15 @@ Definition wseries_doc (s : wseries) : jv :=
         ++ [("resources"%string, JArr (map wresource_doc (ws_resources s)));
             ("points"%string, JArr (map (wpoint_doc (ws_tb s) (ws_iv s)) (ws_points s)));
             ("type"%string, JNum 0%N (Some 0))]).
-Definition wseries_series (s : wseries) : ddseries := DS (ws_metric s) (ws_resources s) (ws_points s).
+Definition wseries_series (s : wseries) : ddseries := DS (ws_metric s) (ws_resources s) (ws_points s) [].
 
-Lemma points_array_written : forall tb iv ps st acc,
-  exists st', points_array (map (wpoint_doc tb iv) ps) st acc = WOk (acc ++ ps, st')%list.
+Lemma points_array_written : forall tb iv ps st acc stamped,
+  exists st', points_array (map (wpoint_doc tb iv) ps) st acc stamped = WOk (acc ++ ps, stamped, st')%list.
 Proof.
-  intros tb iv. induction ps as [|[z b] ps IH]; intros st acc.
+  intros tb iv. induction ps as [|[z b] ps IH]; intros st acc stamped.
   - exists st. cbn. rewrite app_nil_r. reflexivity.
   - cbn [map points_array wpoint_doc fst snd point_members]. cbn.
-    destruct (IH (Some z, b) (acc ++ [(z, b)])%list) as [st' E]. exists st'. rewrite E. rewrite <- app_assoc. reflexivity.
+    destruct (IH (Some z, b) (acc ++ [(z, b)])%list stamped) as [st' E]. exists st'. rewrite E. rewrite <- app_assoc. reflexivity.
 Qed.
 
 Lemma resource_object_written : forall r, resource_object (wresource_doc r) = Some r.
@@ -184,7 +184,7 @@ Proof.
   assert (R : all_some resource_object (map wresource_doc rs) = Some rs).
   { rewrite (all_some_map _ _ _ resource_object wresource_doc (fun r => r)); [rewrite map_id; reflexivity|].
     intros r _. apply resource_object_written. }
-  destruct (points_array_written tb iv ps (None, 0%N) []) as [st' P]. cbn [app] in P.
+  destruct (points_array_written tb iv ps (None, 0%N) [] []) as [st' P]. cbn [app] in P.
   destruct m as [n|]; cbn -[points_array all_some]; rewrite R, P; reflexivity.
 Qed.
 
